@@ -1,6 +1,59 @@
 package turtle
 
-import "github.com/dpb587/rdfkit-go/encoding/turtle/internal"
+import (
+	"github.com/dpb587/rdfkit-go/encoding/turtle/internal"
+	"github.com/dpb587/rdfkit-go/ontology/xsd/xsdiri"
+	"github.com/dpb587/rdfkit-go/rdf"
+)
+
+// literalShorthandDatatype reports the datatype a bare token denotes: INTEGER, DECIMAL, DOUBLE, or true and false.
+func literalShorthandDatatype(lexicalForm string) (rdf.IRI, bool) {
+	if lexicalForm == "true" || lexicalForm == "false" {
+		return xsdiri.Boolean_Datatype, true
+	}
+
+	i := 0
+
+	digits := func() int {
+		n := 0
+
+		for i < len(lexicalForm) && '0' <= lexicalForm[i] && lexicalForm[i] <= '9' {
+			i++
+			n++
+		}
+
+		return n
+	}
+
+	if i < len(lexicalForm) && (lexicalForm[i] == '+' || lexicalForm[i] == '-') {
+		i++
+	}
+
+	intDigits, fracDigits := digits(), 0
+	hasDot := i < len(lexicalForm) && lexicalForm[i] == '.'
+
+	if hasDot {
+		i++
+		fracDigits = digits()
+	}
+
+	if i < len(lexicalForm) && (lexicalForm[i] == 'e' || lexicalForm[i] == 'E') {
+		i++
+
+		if i < len(lexicalForm) && (lexicalForm[i] == '+' || lexicalForm[i] == '-') {
+			i++
+		}
+
+		// DOUBLE: [0-9]+ '.' [0-9]* EXPONENT | '.' [0-9]+ EXPONENT | [0-9]+ EXPONENT
+		return xsdiri.Double_Datatype, digits() > 0 && i == len(lexicalForm) && (intDigits > 0 || fracDigits > 0)
+	} else if hasDot {
+		// DECIMAL: [0-9]* '.' [0-9]+
+		return xsdiri.Decimal_Datatype, fracDigits > 0 && i == len(lexicalForm)
+	}
+
+	// INTEGER: [0-9]+
+	return xsdiri.Integer_Datatype, intDigits > 0 && i == len(lexicalForm)
+}
 
 func formatLiteralLexicalForm(lexicalForm string, ascii bool) string {
 	var echar, uchar4, uchar8 int
